@@ -10,14 +10,21 @@
      CacheByName   - labels are remembered per FIELD NAME (not per class and name): the
                      second class using the same field name gets the first one's label
      UnsortedSets  - a set is rendered in iteration order instead of a sorted order
-   With both FALSE (the intended design) TLC proves Deterministic; with either TRUE it
+     PinEncoder    - rendering a class for the first time stores the text encoder then installed on that class
+                     (getattr instead of vars(cls).get when saving it), so a later change of the installed
+                     encoder is ignored for that class
+   With all FALSE (the intended design) TLC proves Deterministic; with any TRUE it
    produces a history / an environment in which two serialisations of one object differ. *)
 EXTENDS Naturals, Sequences, FiniteSets, TLC
 
-CONSTANTS Objects, Perms, CacheByName, UnsortedSets, MaxSteps
+CONSTANTS Objects, Perms, CacheByName, UnsortedSets, PinEncoder, MaxSteps
 
-VARIABLES cache, perm, out, steps
-vars == <<cache, perm, out, steps>>
+VARIABLES cache, perm, out, steps,
+          enc,       \* the text encoder the application has installed ("default" or "app")
+          pinned     \* class -> encoder stored on the class itself ("none" = inherits the installed one)
+vars == <<cache, perm, out, steps, enc, pinned>>
+Encoders == {"default", "app"}
+Classes == {o.cls : o \in Objects}
 
 Names == {o.field : o \in Objects}
 NoLabel == "?"
@@ -28,7 +35,8 @@ InOrder(S, p) == LET idx == {i \in 1..Len(p) : p[i] \in S}
                      RECURSIVE F(_)
                      F(k) == IF k > Len(p) THEN <<>> ELSE (IF p[k] \in S THEN <<p[k]>> ELSE <<>>) \o F(k + 1)
                  IN F(1)
-Render(o, c, p) == <<o.cls,
+EffEnc(o) == IF PinEncoder /\ pinned[o.cls] # "none" THEN pinned[o.cls] ELSE enc
+Render(o, c, p) == <<o.cls, EffEnc(o),
                      IF CacheByName /\ c[o.field] # NoLabel THEN c[o.field] ELSE o.label,
                      IF UnsortedSets THEN InOrder(o.members, p) ELSE Sorted(o.members)>>
 
@@ -36,18 +44,24 @@ Init == /\ cache = [n \in Names |-> NoLabel]
         /\ perm \in Perms
         /\ out = [o \in Objects |-> <<>>]
         /\ steps = 0
+        /\ enc = "default" /\ pinned = [c \in Classes |-> "none"]
 
 Serialise(o) == /\ steps < MaxSteps
-                /\ out' = [out EXCEPT ![o] = Render(o, cache, perm)]
+                /\ out' = [out EXCEPT ![o] = <<Render(o, cache, perm), enc>>]
+                /\ pinned' = IF PinEncoder /\ pinned[o.cls] = "none" THEN [pinned EXCEPT ![o.cls] = enc] ELSE pinned
                 /\ cache' = IF CacheByName /\ cache[o.field] = NoLabel THEN [cache EXCEPT ![o.field] = o.label] ELSE cache
-                /\ steps' = steps + 1 /\ UNCHANGED perm
+                /\ steps' = steps + 1 /\ UNCHANGED <<perm, enc>>
 \* a new process: other hash seed, empty caches; results of the old process are kept for comparison
-Restart == /\ steps < MaxSteps /\ perm' \in Perms /\ cache' = [n \in Names |-> NoLabel] /\ steps' = steps + 1 /\ UNCHANGED out
+Restart == /\ steps < MaxSteps /\ perm' \in Perms /\ cache' = [n \in Names |-> NoLabel] /\ steps' = steps + 1
+           /\ enc' = "default" /\ pinned' = [c \in Classes |-> "none"] /\ UNCHANGED out
+\* the application installs another text encoder (Serializable.post_text_encoder = ...)
+Install(e) == /\ steps < MaxSteps /\ enc # e /\ enc' = e /\ steps' = steps + 1 /\ UNCHANGED <<cache, perm, out, pinned>>
 
-Next == (\E o \in Objects : Serialise(o)) \/ Restart
+Next == (\E o \in Objects : Serialise(o)) \/ Restart \/ (\E e \in Encoders : Install(e))
 Spec == Init /\ [][Next]_vars
 
 \* whenever an object is serialised, the result is THE rendering of that object
-Canonical(o) == <<o.cls, o.label, Sorted(o.members)>>
-Deterministic == \A o \in Objects : out[o] = <<>> \/ out[o] = Canonical(o)
+\* ... under the encoder installed at that moment
+Canonical(o, e) == <<o.cls, e, o.label, Sorted(o.members)>>
+Deterministic == \A o \in Objects : out[o] = <<>> \/ out[o][1] = Canonical(o, out[o][2])
 =============================================================================
